@@ -236,7 +236,7 @@ class Proxy(threading.Thread):
             pass
 
 
-CERT_REQS = ["unset", "none", "required"]
+CERT_REQS = ["unset", "none", "required", "optional"]
 CHECK_HOST = ["unset", False, True]
 TRUST = ["none", "ca_certs=A", "ca_certs=B", "ca_cert_path=A", "env-file=A", "env-dir=A", "context(A)", "SSL_CERT_FILE=A", "ca_certs=B+env-file=A", "ca_cert_path=B+env-dir=A"]
 SNI = ["unset", "localhost", "other.test", "127.0.0.1"]
@@ -313,6 +313,10 @@ def run(res, tier, seed, shard, nshards):
                     essential.append(("unset", True, "ca_certs=A", "127.0.0.1", cert, route, "localhost", "unset"))
                     for sv in SSLVER[1:]:
                         essential.append(("unset", "unset", "ca_certs=A", "unset", cert, route, "localhost", sv))
+            for cert in CERTS:
+                for route in ROUTE:
+                    essential.append(("optional", "unset", "ca_certs=A", "unset", cert, route, "localhost", "unset"))
+                    essential.append(("optional", False, "none", "unset", cert, route, "localhost", "unset"))
             r2 = random.Random(seed)
             sample = r2.sample(combos, 400)
             combos = essential + sample
@@ -320,6 +324,16 @@ def run(res, tier, seed, shard, nshards):
             if ci % nshards != shard:
                 continue
             tls_case(res, W, P, servers, proxy, *c)
+        # the Host header override (virtual host) next to the TLS options
+        hi = 0
+        for cert in CERTS:
+            for route in ROUTE:
+                for hostopt in ("other.test", "other.test:8443", "localhost"):
+                    for sni in ("unset", "other.test"):
+                        for uh in (URLHOST if tier == "thorough" else ["localhost"]):
+                            hi += 1
+                            if hi % nshards == shard:
+                                tls_case(res, W, P, servers, proxy, "unset", "unset", "ca_certs=A", sni, cert, route, uh, "unset", 0, hostopt)
         if shard == 1 % nshards:
             scheme_case_cases(res, W, servers)
             reuse_cases(res, W, P, servers)
@@ -336,7 +350,7 @@ def run(res, tier, seed, shard, nshards):
         H.scrub_env()
 
 
-def tls_case(res, W, P, servers, proxy, cert_reqs, check_host, trust, sni, cert, route, urlhost="localhost", sslver="unset", _try=0):
+def tls_case(res, W, P, servers, proxy, cert_reqs, check_host, trust, sni, cert, route, urlhost="localhost", sslver="unset", _try=0, hostopt="unset"):
     H.scrub_env()
     os.environ.pop("SSL_CERT_FILE", None)
     sslopt = {}
@@ -344,6 +358,9 @@ def tls_case(res, W, P, servers, proxy, cert_reqs, check_host, trust, sni, cert,
         sslopt["cert_reqs"] = ssl.CERT_NONE
     elif cert_reqs == "required":
         sslopt["cert_reqs"] = ssl.CERT_REQUIRED
+    elif cert_reqs == "optional":
+        # for a client CERT_OPTIONAL means what CERT_REQUIRED means (the server's certificate is validated): not a documented relaxation
+        sslopt["cert_reqs"] = ssl.CERT_OPTIONAL
     if check_host != "unset":
         sslopt["check_hostname"] = check_host
     if trust == "ca_certs=A":
@@ -380,6 +397,10 @@ def tls_case(res, W, P, servers, proxy, cert_reqs, check_host, trust, sni, cert,
     kw = {}
     if route == "proxy":
         kw.update(http_proxy_host="127.0.0.1", http_proxy_port=proxy.port)
+    if hostopt != "unset":
+        # the Host header override names a virtual host for the HTTP request; it has no say in whom the certificate must name
+        kw["host"] = hostopt
+        res.count("tls_cases_with_host_header_override")
     del shim.wrap_log[:]
     exc = None
     w = None
@@ -411,7 +432,7 @@ def tls_case(res, W, P, servers, proxy, cert_reqs, check_host, trust, sni, cert,
             prec = None
     exp, chain, name, note = reference(cert_reqs, check_host, trust, sni, cert, urlhost)
     case = {"cert_reqs": cert_reqs, "check_hostname": check_host, "trust": trust, "server_hostname": sni, "server_cert": cert, "route": route, "url_host": urlhost,
-            "ssl_version": sslver}
+            "ssl_version": sslver, "host_option": hostopt}
     res.case(tuple(case.values()), nontrivial=True)
     res.count("tls_cases")
     res.count("accept_expected" if exp else "reject_expected")
@@ -426,7 +447,7 @@ def tls_case(res, W, P, servers, proxy, cert_reqs, check_host, trust, sni, cert,
         res.counters["accept_expected" if exp else "reject_expected"] -= 1
         if _try < 3:
             time.sleep(0.5)
-            return tls_case(res, W, P, servers, proxy, cert_reqs, check_host, trust, sni, cert, route, urlhost, sslver, _try + 1)
+            return tls_case(res, W, P, servers, proxy, cert_reqs, check_host, trust, sni, cert, route, urlhost, sslver, _try + 1, hostopt)
         res.count("tls_cases_skipped_after_repeated_wall_clock_timeouts")
         res.notes["wall_clock_timeouts"] = f"case {case} timed out 4 times in a row (machine overloaded?) and was skipped"
         return
@@ -466,7 +487,8 @@ def tls_case(res, W, P, servers, proxy, cert_reqs, check_host, trust, sni, cert,
             r = wl[0]
             exp_mode = int(ssl.CERT_NONE) if not chain else int(ssl.CERT_REQUIRED)
             exp_name = urlhost if sni == "unset" else sni
-            if r["verify_mode"] != exp_mode or r["check_hostname"] != name or r["server_hostname"] != exp_name:
+            mode_ok = r["verify_mode"] == exp_mode or (chain and cert_reqs == "optional" and r["verify_mode"] == int(ssl.CERT_OPTIONAL))
+            if not mode_ok or r["check_hostname"] != name or r["server_hostname"] != exp_name:
                 bad("context-settings", f"context used: {r}; expected verify_mode={exp_mode} check_hostname={name} server_hostname={exp_name}")
             else:
                 res.count("context_settings_checked")
